@@ -252,6 +252,22 @@ fn check_double(c: &KCase, obs: &mut Obs) -> CheckResult {
     let b = view_f(&c.y, "second series");
     let r = run_kernel::<f64>(len, c.out_buf, |buf| a.rolling2_custom::<ChkOut<f64>, f64, _, _, _>(&b, c.w, |s1: &[f64], s2: &[f64]| (s1.len() + s2.len()) as f64, buf));
     judge("rolling2_custom", regular, r, len, obs)?;
+    // the same driver with a caller buffer of the WRONG length (a degenerate parameter): its buffer
+    // path goes through the length-checked iterator writer, so the call must end in a clean panic or
+    // a fully defined buffer - never in a write past a shorter buffer or in unwritten tail slots of a
+    // longer one that is then exposed as initialised. (Only this driver: the index-writing `_to`
+    // forms document the buffer length as the caller's obligation, DESIGN 10.2.)
+    if c.out_buf && c.y.len() == len {
+        let blen = (len as isize + [-2isize, -1, 1, 2, 5][(c.w + len) % 5]).max(0) as usize;
+        if blen != len {
+            reset_log();
+            let a = view_f(&c.x, "first series");
+            let b = view_f(&c.y, "second series");
+            let r = run_kernel::<f64>(blen, true, |buf| a.rolling2_custom::<ChkOut<f64>, f64, _, _, _>(&b, c.w, |s1: &[f64], s2: &[f64]| (s1.len() + s2.len()) as f64, buf));
+            judge("rolling2_custom(wrong-length caller buffer)", false, r, blen, obs)?;
+            obs.class("wrong_length_caller_buffer");
+        }
+    }
     Ok(())
 }
 
@@ -407,7 +423,7 @@ fn check_real_out_buffers(c: &KCase, obs: &mut Obs) -> CheckResult {
 fn main() {
     let mut p = Property::new(
         "C10",
-        "cases = (pair of series of length 0..=20 (thorough ..=48) with every null pattern, window 0..=len+3 weighted towards 0, 1, len-1, len, len+1, min_periods, second series equal / shorter / longer, k in 0..=len+2, f64 or Option<f64> elements, returned or caller-supplied output buffer); every rolling entry point (28 single-series, 8 two-series, rolling2_custom), vrank, varg_partition, vpartition, vquantile runs on an instrumented input view that logs each unchecked element / slice access and into an instrumented output buffer that logs each write. Oracle: the call completes with a clean access log, an output as long as the input, and every slot written exactly once; or - for degenerate parameters only (window 0, mismatched second series) - it panics before any bad access. \
+        "cases = (pair of series of length 0..=20 (thorough ..=48) with every null pattern, window 0..=len+3 weighted towards 0, 1, len-1, len, len+1, min_periods, second series equal / shorter / longer, k in 0..=len+2, f64 or Option<f64> elements, returned or caller-supplied output buffer); every rolling entry point (28 single-series, 8 two-series, rolling2_custom), vrank, varg_partition, vpartition, vquantile runs on an instrumented input view that logs each unchecked element / slice access and into an instrumented output buffer that logs each write. Oracle: the call completes with a clean access log, an output as long as the input, and every slot written exactly once; or - for degenerate parameters only (window 0, mismatched second series) - it panics before any bad access. rolling2_custom is run a second time with a caller buffer of the wrong length (len-2..len+5): clean panic or a fully written buffer, never a write past a shorter buffer or unwritten tail slots of a longer one. \
          Non-trivial = w > len, w = 0 with len > 0, len = 0, mismatched lengths, or (len > w and nulls present: rescans and removals of nulls happen); distinct = distinct serialised cases",
     )
     .assume("the instrumented view delegates its rolling drivers to the library's own *_to bodies exactly as the Vec backend does")
